@@ -139,6 +139,8 @@ def main(argv=None):
             known_hits.setdefault(key, hit[0].get("what") or out.get("what"))
             continue
         r["verdict"] = "violation"
+        if key in [k for _, _, k in violations]:
+            continue  # same failing input class already reported by another obligation
         os.makedirs(rep_dir, exist_ok=True)
         path = os.path.join(rep_dir, f"{pid}-{len(violations)}.json")
         json.dump({"property": pid, "result": r}, open(path, "w"), indent=1, default=str)
